@@ -111,6 +111,9 @@ type siteSpec struct {
 	Port   string
 	TLS    int
 	Bind   int // 0 = no bind directive, else index+1 into bindHosts
+	// Path: the address is written with a path ("example.com/app"); the site then only
+	// covers that path, the redirect site of its host still answers every request
+	Path string
 }
 
 type setSpec struct {
@@ -143,7 +146,7 @@ func (s siteSpec) key() string {
 	if s.Port != "" {
 		k += ":" + s.Port
 	}
-	return k
+	return k + s.Path
 }
 
 func (s siteSpec) describe() map[string]string {
@@ -218,7 +221,7 @@ func (s siteSpec) effPort() string {
 // collides: two addresses casket may reject as duplicates (same host, same
 // port before automatic HTTPS assigns defaults).
 func collides(a, b siteSpec) bool {
-	return a.Host == b.Host && (a.effPort() == b.effPort() || a.key() == b.key())
+	return a.Host == b.Host && a.Path == b.Path && (a.effPort() == b.effPort() || a.key() == b.key())
 }
 
 // expectRejectable: a load error would not be surprising (only used for a
@@ -316,6 +319,18 @@ func generate(c *lib.Ctx) []setSpec {
 					for bi := range bindHosts {
 						out = append(out, setSpec{Sites: []siteSpec{{Scheme: sc, Host: hostIdx(hn), Port: p, TLS: t, Bind: bi + 1}}, Shape: "single+bind"})
 					}
+				}
+			}
+		}
+	}
+
+	// B2. sites declared under a path (one, and two of the same host)
+	for _, hn := range []string{"public", "public-upper", "public-wildcard", "test"} {
+		for _, sc := range []string{"", "https"} {
+			for _, p := range []string{"", "8443"} {
+				for _, t := range []int{tlsAbsent, tlsEmail, tlsSelfSigned} {
+					out = append(out, setSpec{Sites: []siteSpec{{Scheme: sc, Host: hostIdx(hn), Port: p, TLS: t, Path: "/app"}}, Shape: "single+path"})
+					out = append(out, setSpec{Sites: []siteSpec{{Scheme: sc, Host: hostIdx(hn), Port: p, TLS: t, Path: "/app"}, {Scheme: sc, Host: hostIdx(hn), Port: p, TLS: t, Path: "/blog"}}, Shape: "two-paths"})
 				}
 			}
 		}
